@@ -17,7 +17,8 @@ _I, _S = frozenset([("n", "Int", ())]), frozenset([("n", "String", ())])
 IMG = {"int": _I, "str": _S, "list[int]": frozenset([("n", "List", (_I,))]), "tuple[int, str]": frozenset([("n", "Tuple", (_I, _S))]), "tuple[str, int]": frozenset([("n", "Tuple", (_S, _I))]),
        "SameK": frozenset([("n", "SameK", ())]), "OtherK": frozenset([("n", "OtherK", ())])}
 STYLES = ["NUMPYDOC", "GOOGLE", "REST"]
-OWNERS = ["function", "method", "ctor"]
+# *_selfnames: explicit (non-receiver) parameters that are NAMED self / cls
+OWNERS = ["function", "method", "ctor", "function_selfnames", "static_selfnames"]
 
 
 def docstring(style: str, params: list[tuple[str, str | None]], results: list[tuple[str | None, str | None]], ind: str) -> str:
@@ -54,6 +55,8 @@ def docstring(style: str, params: list[tuple[str, str | None]], results: list[tu
 def render(cid: int, style: str, owner: str, params: list[tuple[str | None, str | None]], results: list[tuple[str | None, str | None]]) -> str:
     """params: (hint, doc type) per parameter; results: (hint, doc type) per result (0-2)."""
     names = [f"p{i}" for i in range(len(params))]
+    if owner.endswith("_selfnames"):
+        names = ["self", "cls"][: len(params)]
     sig = ", ".join(f"{n}: {h}" if h else n for n, (h, _) in zip(names, params, strict=True))
     rhints = [h for h, _ in results]
     if not results or all(h is None for h in rhints):
@@ -64,7 +67,9 @@ def render(cid: int, style: str, owner: str, params: list[tuple[str | None, str 
         ret = " -> tuple[" + ", ".join(h or "int" for h in rhints) + "]"
     pdoc = [(n, d) for n, (_, d) in zip(names, params, strict=True)]
     rdoc = [(f"r{i}" if style == "NUMPYDOC" else None, d) for i, (_, d) in enumerate(results) if d]
-    if owner == "function":
+    if owner == "static_selfnames":
+        return f'class K{cid}:\n    @staticmethod\n    def f{cid}({sig}){ret}:\n        """{docstring(style, pdoc, rdoc, "        ")}"""\n        ...\n'
+    if owner in ("function", "function_selfnames"):
         return f'def f{cid}({sig}){ret}:\n    """{docstring(style, pdoc, rdoc, "    ")}"""\n    ...\n'
     if owner == "method":
         s2 = ", ".join(x for x in ("self", sig) if x)
@@ -111,7 +116,7 @@ def lab(owner, params, results) -> str:
 
 def run(rep: Report, tier: str, seed: int) -> None:
     rep.rule = (
-        "per parameter and per result: hint in {absent,int,str,list[int],tuple[int,str],tuple[str,int],SameK,OtherK} x docstring type in the same set (SameK/OtherK: classes every case module defines under the same short names); one varied parameter (alone and next to a fixed one) for function/method/constructor, one varied result, two results (numpydoc)"
+        "per parameter and per result: hint in {absent,int,str,list[int],tuple[int,str],tuple[str,int],SameK,OtherK} x docstring type in the same set (SameK/OtherK: classes every case module defines under the same short names); one varied parameter (alone and next to a fixed one) for function/method/constructor and for a function / static method whose explicit parameters are NAMED self and cls, one varied result, two results (numpydoc)"
         + ("; full product for two parameters x 5 result situations" if tier == "thorough" else "")
         + "; x 3 structured docstring styles; every case analysed under all four (preference, warning) pairs; distinct = distinct (style, case label)"
     )
